@@ -1,6 +1,8 @@
 package c19
 
 import (
+	"encoding/json"
+	"os"
 	"fmt"
 	"testing"
 
@@ -57,5 +59,81 @@ func TestProbe(t *testing.T) {
 			fmt.Printf("O3  %q\n", o3)
 		}
 		fmt.Println()
+	}
+}
+
+func TestCorpusReport(t *testing.T) {
+	for _, c := range corpus() {
+		r := regions(c)
+		var in []string
+		for _, id := range allFindings {
+			if r[id] {
+				in = append(in, id)
+			}
+		}
+		err := check(c)
+		if err != nil || len(in) > 0 {
+			msg := ""
+			if err != nil {
+				msg = err.Error()
+				if len(msg) > 300 {
+					msg = msg[:300]
+				}
+			}
+			fmt.Printf("%-60s regions=%v\n    %s\n", c.Name, in, msg)
+		}
+	}
+}
+
+func TestWriteWitnesses(t *testing.T) {
+	type w struct {
+		id, slug, what string
+		c          Case
+	}
+	ws := []w{
+		{fQuote, "attr-double-quote", "an attribute value containing a double quote is written unescaped between double quotes: the value is cut at the quote, extra attributes appear, and every further pass changes the text again", Case{Kind: "gen", Body: "<p title='say \"hi\"'>x</p>\n"}},
+		{fAmp, "attr-ampersand-reparse", "an attribute value containing a literal character-reference-like text (source &amp;lt;) is written with a bare ampersand and reads back as a different value", Case{Kind: "gen", Body: "<p title=\"a &amp;lt; b\">x</p>\n"}},
+		{fBlank, "attr-blank-value", "a whitespace-only attribute value is written as value=\"\" by the first pass and as a bare attribute by the second (not idempotent)", Case{Kind: "gen", Body: "<input value=\" \">\n"}},
+		{fDocCase, "lowercase-doctype", "a document starting with <!doctype html> (lower case) is treated as a fragment: doctype, html, head and body disappear", Case{Kind: "gen", Doc: true, Doctype: "<!doctype html>", Body: "\n<html><head><title>t</title></head><body><p>x</p></body></html>\n"}},
+		{fTextarea, "textarea-whitespace", "whitespace inside <textarea> (a raw-text element whose whitespace is its value) is collapsed and trimmed", Case{Kind: "gen", Body: "<textarea>a  b\n  c</textarea>\n"}},
+		{fPreNL, "pre-leading-newline", "<pre> content that starts with a newline loses that newline on every pass (the parser drops the first newline after <pre>, the formatter does not re-add it)", Case{Kind: "gen", Body: "<pre>\n\nx</pre>\n"}},
+		{fRawText, "noscript-escaped", "the content of <noscript> (raw text for the HTML5 parser the formatter uses) is entity-escaped, once more on every pass", Case{Kind: "gen", Body: "<noscript><img src=\"x.gif\"></noscript>\n"}},
+		{fNsAttr, "svg-namespaced-attr", "namespaced attributes inside <svg> lose their prefix: xlink:href becomes href, xmlns:xlink becomes xlink", Case{Kind: "gen", Body: "<svg><use xlink:href=\"#a\"></use></svg>\n"}},
+		{fQuirks, "doctype-quirks-parse", "the doctype is cut off before parsing, so a document with a doctype is parsed in quirks mode: <p> is not closed by a following <table> and the output nests the table inside the paragraph", Case{Kind: "gen", Doc: true, Doctype: "<!DOCTYPE html>", Body: "\n<html><body><p>a<table><tr><td>x</td></tr></table></body></html>\n"}},
+		{fMustache, "mustache-unescaped", "text inside {{ }} is written back unescaped even when the source had it escaped: {{ a&lt;b }} becomes {{ a<b }}, which the parser reads as a tag", Case{Kind: "gen", Body: "<p>{{ a&lt;b }}</p>\n"}},
+		{fCtxCR, "table-fragment-cr", "a fragment starting with a table-scoped tag whose name is followed by a carriage return (CRLF file, attributes on the next line) is parsed in body context: the td/tr/th tags are dropped", Case{Kind: "gen", Ctx: "tr", Body: "<td\r\n  class=\"a\">x</td>\r\n"}},
+	}
+	type finding struct {
+		ID       string `json:"id"`
+		Property string `json:"property"`
+		Status   string `json:"status"`
+		What     string `json:"what"`
+		Witness  string `json:"witness"`
+		Line     string `json:"line"`
+	}
+	var fs []finding
+	for _, x := range ws {
+		err := check(x.c)
+		if err == nil {
+			t.Errorf("%s: witness passes", x.id)
+			continue
+		}
+		if !regions(x.c)[x.id] {
+			t.Errorf("%s: witness not in its own region", x.id)
+		}
+		raw, _ := json.Marshal(x.c)
+		rp := map[string]any{"property": "C19", "kind": "gen", "case": json.RawMessage(raw), "msg": err.Error()}
+		b, _ := json.MarshalIndent(rp, "", " ")
+		rel := "replays/known/C19-" + x.slug + ".json"
+		if err := os.WriteFile("/verif/"+rel, append(b, '\n'), 0o644); err != nil {
+			t.Fatal(err)
+		}
+		fs = append(fs, finding{x.id, "C19", "open", x.what, rel, "KNOWN-FINDING: property=C19 " + x.what})
+		fmt.Printf("%s\n   %s\n", x.id, short(err.Error()))
+	}
+	b, _ := json.MarshalIndent(map[string]any{"findings": fs}, "", " ")
+	_ = os.MkdirAll("/verif/findings.d", 0o755)
+	if err := os.WriteFile("/verif/findings.d/c19.json", append(b, '\n'), 0o644); err != nil {
+		t.Fatal(err)
 	}
 }
